@@ -92,7 +92,7 @@ def supports_item(t):
 def ord_ok(t):
     k = t.kind
     if k in ("mirror", "owned"):
-        return t.args[0].kind != "f64"
+        return t.args[0].kind not in ("f64", "i64")
     if k in ("string", "vecregion", "huffman", "codec"):
         return True
     if k in ("slice", "option", "consec", "collapse"):
@@ -398,7 +398,15 @@ def main():
     if not os.path.exists(path) or open(path).read() != rs:
         open(path, "w").write(rs)
     import gen_lean
-    gen_lean.write(entries, stacks)
+    forms_of = {}
+    ord_of = {}
+    for t in entries:
+        names = [f.name for f in forms(t)]
+        if supports_item(t):
+            names += ["item", "itemowned"]
+        forms_of[str(t)] = names
+        ord_of[str(t)] = ord_ok(t)
+    gen_lean.write(entries, stacks, forms_of, ord_of)
     # machine-readable summary for the check driver
     import json
     summ = []
